@@ -24,7 +24,7 @@ func init() {
 	register("C43", PropertyMeta{
 		Technique: "table extraction of the validator's accepted kinds against the lossless set + per-field rejection obligations + the lossless walker over every Spec/State type instantiated in the library",
 		Explanation: "Decides on modeling/validate.go: the kinds validateFieldType accepts outright are a subset of the lossless scalar kinds, containers recurse into their element (and map keys are restricted to strings/integers), pointers/interfaces/channels/functions are rejected; a type with MarshalJSON but no UnmarshalJSON is rejected; " +
-			"(field-descent) the field loop leaves a field unvalidated only on its json:\"-\" tag; per-field obligations: an unexported field of a struct without custom JSON, and a field tagged json:\"-\", must lead to rejection (both are reported today as known findings); every Spec/State type actually instantiated in the library is lossless by the walker of C08.",
+			"(field-descent) the field loop leaves a field unvalidated only on its json:\"-\" tag; per-field obligations: an unexported field of a struct without custom JSON, and a field tagged json:\"-\", must lead to rejection (both are reported today as known findings); every Spec/State type actually instantiated in the library is lossless by the walker of C08. (fresh-decode-target) State is decoded into a fresh value on load, so the accepted types round-trip regardless of what the destination component held.",
 		NotDecided:  "values (NaN, invalid UTF-8); types defined by users outside the repository.",
 		Assumptions: []string{"reflect.Kind constants as named in the source"},
 	}, runC43)
@@ -338,6 +338,10 @@ func codecRule(c *Ctx, rule string) {
 var _ = packages.NeedName
 
 func runC43(c *Ctx) {
+	// acceptance by the validator means "round-trips" only if the load decodes into
+	// a fresh value: encoding/json merges into an existing one (map entries and
+	// omitted fields survive)
+	freshDecodeRule(c, "fresh-decode-target")
 	// the "would serialise to {}" verdict is taken from the encoder itself
 	if f := c.fn("empty-verdict", "modeling", "", "serializesToEmpty"); f != nil {
 		t := ExtractTable(c.P, f, TableConfig{LoopsOnce: true})
